@@ -1,10 +1,1000 @@
 (** Proofs/OffsetProofs.v — lemmas for property C06 (offset units). *)
+From Coq Require Import Field Qcanon.
 From PintV Require Import Model.UC Model.Eval Model.Registry Model.Offset.
 From PintV Require Import Proofs.UCProofs Proofs.RegistryProofs Proofs.RootProofs Proofs.FactorProofs.
-From PintV Require Import Gen.Converters.
+From PintV Require Import Gen.Converters Gen.DefaultDefs Gen.DefaultReg.
 Open Scope string_scope.
 
 (** * Tie T4: the formulas regenerated from the converter classes are the ones the model interprets *)
 Lemma tie_scale_conv : gen_scale_conv = scale_conv. Proof. reflexivity. Qed.
 Lemma tie_offset_conv : gen_offset_conv = offset_conv. Proof. reflexivity. Qed.
 Lemma tie_log_conv : gen_log_conv = log_conv. Proof. reflexivity. Qed.
+
+(** * The scale and offset converters over ANY field *)
+Section AnyField.
+  Context {F : Type} (rO rI : F) (radd rmul rsub : F → F → F) (ropp : F → F)
+          (rdiv : F → F → F) (rinv : F → F)
+          (Fth : field_theory rO rI radd rmul rsub ropp rdiv rinv eq).
+  Context (flog fexp : F → F).
+  Add Field anyF : Fth.
+  Notation runF := (run_fun radd rsub rmul rdiv flog fexp).
+  Notation runI := (run_inpl radd rsub rmul rdiv flog fexp).
+  Notation env := (mkenv).
+
+  (** the affine map and its inverse, as the ASTs compute them *)
+  Lemma offset_to_value s o b f x : runF (cc_to offset_conv) (env s o b f x) = radd (rmul x s) o.
+  Proof. reflexivity. Qed.
+  Lemma offset_from_value s o b f x : runF (cc_from offset_conv) (env s o b f x) = rdiv (rsub x o) s.
+  Proof. reflexivity. Qed.
+  Lemma scale_to_value s o b f x : runF (cc_to scale_conv) (env s o b f x) = rmul x s.
+  Proof. reflexivity. Qed.
+  Lemma scale_from_value s o b f x : runF (cc_from scale_conv) (env s o b f x) = rdiv x s.
+  Proof. reflexivity. Qed.
+
+  Theorem offset_inverse_field s o b f x : s ≠ rO →
+    runF (cc_from offset_conv) (env s o b f (runF (cc_to offset_conv) (env s o b f x))) = x
+    ∧ runF (cc_to offset_conv) (env s o b f (runF (cc_from offset_conv) (env s o b f x))) = x.
+  Proof. intros H. rewrite !offset_to_value, !offset_from_value. split; field; exact H. Qed.
+  Theorem scale_inverse_field s o b f x : s ≠ rO →
+    runF (cc_from scale_conv) (env s o b f (runF (cc_to scale_conv) (env s o b f x))) = x
+    ∧ runF (cc_to scale_conv) (env s o b f (runF (cc_from scale_conv) (env s o b f x))) = x.
+  Proof. intros H. rewrite !scale_to_value, !scale_from_value. split; field; exact H. Qed.
+
+  (** the in-place statement lists compute the functional expressions *)
+  Theorem inplace_eq_functional_field s o b f x :
+    runI (cc_to offset_conv) (env s o b f x) = runF (cc_to offset_conv) (env s o b f x)
+    ∧ runI (cc_from offset_conv) (env s o b f x) = runF (cc_from offset_conv) (env s o b f x)
+    ∧ runI (cc_to scale_conv) (env s o b f x) = runF (cc_to scale_conv) (env s o b f x)
+    ∧ runI (cc_from scale_conv) (env s o b f x) = runF (cc_from scale_conv) (env s o b f x).
+  Proof. repeat split; reflexivity. Qed.
+  (** logarithmic converter: in-place = functional needs only field laws (and [log logbase <> 0]
+      for the division by it) — [log] and [exp] stay uninterpreted *)
+  Theorem log_inplace_eq_functional_field s o b f x : flog b ≠ rO →
+    runI (cc_to log_conv) (env s o b f x) = runF (cc_to log_conv) (env s o b f x)
+    ∧ runI (cc_from log_conv) (env s o b f x) = runF (cc_from log_conv) (env s o b f x).
+  Proof.
+    intros H. split.
+    - cbn. replace (rmul (rdiv x f) (flog b)) with (rmul (flog b) (rdiv x f)) by ring. ring.
+    - cbn. field. exact H.
+  Qed.
+End AnyField.
+
+(** * The rational instance *)
+Lemma runQ_inplace f env :
+  f = cc_to offset_conv ∨ f = cc_from offset_conv ∨ f = cc_to scale_conv ∨ f = cc_from scale_conv →
+  runQ true f env = runQ false f env.
+Proof. intros [-> | [-> | [-> | ->]]]; reflexivity. Qed.
+
+Lemma to_ref_offset inpl d o x : u_conv d = COffset o → to_ref inpl d x = Ok (x * u_scale d + o)%Qc.
+Proof. intros H. unfold to_ref, is_log, conv_of, envQ. rewrite H. destruct inpl; reflexivity. Qed.
+Lemma from_ref_offset inpl d o x : u_conv d = COffset o → u_scale d ≠ 0%Qc →
+  from_ref inpl d x = Ok ((x - o) / u_scale d)%Qc.
+Proof.
+  intros H S. unfold from_ref, is_log, conv_of, envQ. rewrite H.
+  apply qz_false in S. rewrite S. destruct inpl; reflexivity.
+Qed.
+Lemma to_ref_inplace d x : to_ref true d x = to_ref false d x.
+Proof. unfold to_ref, conv_of, is_log, envQ. destruct (u_conv d); reflexivity. Qed.
+Lemma from_ref_inplace d x : from_ref true d x = from_ref false d x.
+Proof.
+  unfold from_ref, conv_of, is_log, envQ. destruct (u_conv d); try reflexivity; destruct (qz (u_scale d)); reflexivity.
+Qed.
+Lemma apply_plan_inplace p x : apply_plan true p x = apply_plan false p x.
+Proof.
+  unfold apply_plan. destruct (pl_src p) as [d|]; simpl.
+  - rewrite to_ref_inplace. destruct (to_ref false d x); simpl; [|reflexivity].
+    destruct (pl_dst p); [apply from_ref_inplace | reflexivity].
+  - destruct (pl_dst p); [apply from_ref_inplace | reflexivity].
+Qed.
+
+Section Q.
+Context (qk : quirks).
+
+(** the in-place twins compute what the functional forms compute *)
+Lemma convert_gen_inplace r auto x s d : convert_gen qk true r auto x s d = convert_gen qk false r auto x s d.
+Proof. unfold convert_gen. destruct (conv_plan qk r auto s d); simpl; [apply apply_plan_inplace | reflexivity]. Qed.
+Lemma to_root_gen_inplace r auto q : to_root_gen qk true r auto q = to_root_gen qk false r auto q.
+Proof.
+  unfold to_root_gen. destruct (root_of r q.2) as [[[f B] ex]|]; simpl; [|reflexivity].
+  rewrite convert_gen_inplace. reflexivity.
+Qed.
+Lemma auto_root_inplace r auto n q : auto_root qk true r auto n q = auto_root qk false r auto n q.
+Proof. unfold auto_root. destruct (_ && _); [apply to_root_gen_inplace | reflexivity]. Qed.
+Theorem iadd_sub_eq r auto sub a b : iadd_sub qk r auto sub a b = add_sub qk r auto sub a b.
+Proof.
+  unfold iadd_sub, add_sub, add_sub_gen, add_sub_num.
+  repeat (rewrite ?convert_gen_inplace; first [reflexivity | match goal with |- context [match ?x with _ => _ end] => destruct x end]).
+Qed.
+Theorem imul_div_eq r auto div a b : imul_div qk r auto div a b = mul_div qk r auto div a b.
+Proof.
+  unfold imul_div, mul_div, mul_div_gen.
+  repeat (rewrite ?auto_root_inplace; first [reflexivity | match goal with |- context [match ?x with _ => _ end] => destruct x end]).
+Qed.
+Theorem q_ipow_eq r auto q e : q_ipow qk r auto q e = q_pow qk r auto q e.
+Proof.
+  unfold q_ipow, q_pow, q_pow_gen.
+  repeat (rewrite ?to_root_gen_inplace; first [reflexivity | match goal with |- context [match ?x with _ => _ end] => destruct x end]).
+Qed.
+End Q.
+
+(** * Conversions between single units *)
+Local Arguments uc_remove : simpl never.
+Local Arguments add_ref : simpl never.
+Local Arguments has_delta : simpl never.
+Local Arguments plain_factor : simpl never.
+Local Arguments dim_of : simpl never.
+Local Arguments validate_dim : simpl never.
+Record offset_unit (r : reg) (X : string) (d : udef) (o : Qc) : Prop := {
+  ou_lookup : r_units r !! X = Some d;
+  ou_conv : u_conv d = COffset o;
+  ou_off : o ≠ 0%Qc;
+  ou_scale : u_scale d ≠ 0%Qc;
+  ou_wfref : wf (u_ref d);
+  ou_refnodelta : has_delta (u_ref d) = false;
+  ou_nodelta : is_delta_name X = false }.
+(** a multiplicative unit (absolute or delta) *)
+Definition plain_unit (r : reg) (X : string) (d : udef) : Prop :=
+  r_units r !! X = Some d ∧ u_multiplicative d = true.
+
+Definition U1 (X : string) : uc := {[ X := 1%Qc ]}.
+
+Lemma resolve_lookup r X d : r_units r !! X = Some d → resolve r X = Ok d.
+Proof. intros H. unfold resolve. rewrite H. reflexivity. Qed.
+Lemma offset_unit_nonmult r X d o : offset_unit r X d o → u_multiplicative d = false.
+Proof. intros H. unfold u_multiplicative. rewrite (ou_conv _ _ _ _ H). apply qz_false. exact (ou_off _ _ _ _ H). Qed.
+Lemma U1_neq X Y : X ≠ Y → uc_eqb (U1 X) (U1 Y) = false.
+Proof.
+  intros N. unfold uc_eqb. apply bool_decide_eq_false. intros E.
+  assert (H : U1 Y !! X = Some 1%Qc) by (rewrite <- E; apply lookup_singleton).
+  unfold U1 in H. apply lookup_singleton_Some in H. destruct H as [H _]. congruence.
+Qed.
+Lemma nonmult_U1_offset r X d o : offset_unit r X d o → nonmult_units r (U1 X) = Ok [(X, 1%Qc)].
+Proof.
+  intros H. unfold nonmult_units, U1. rewrite map_to_list_singleton. simpl.
+  rewrite (resolve_lookup _ _ _ (ou_lookup _ _ _ _ H)). simpl. rewrite (offset_unit_nonmult _ _ _ _ H). reflexivity.
+Qed.
+Lemma nonmult_U1_plain r X d : plain_unit r X d → nonmult_units r (U1 X) = Ok [].
+Proof.
+  intros [H M]. unfold nonmult_units, U1. rewrite map_to_list_singleton. simpl.
+  rewrite (resolve_lookup _ _ _ H). simpl. rewrite M. reflexivity.
+Qed.
+Lemma validate_U1_offset r auto X d o : offset_unit r X d o → validate_dim r auto (U1 X) = Ok (Some X).
+Proof.
+  intros H. unfold validate_dim, validate_extract. rewrite (nonmult_U1_offset _ _ _ _ H). simpl.
+  unfold U1. rewrite map_size_singleton. reflexivity.
+Qed.
+Lemma validate_U1_plain r auto X d : plain_unit r X d → validate_dim r auto (U1 X) = Ok None.
+Proof. intros H. unfold validate_dim, validate_extract. rewrite (nonmult_U1_plain _ _ _ H). reflexivity. Qed.
+Lemma has_delta_U1 X : has_delta (U1 X) = is_delta_name X.
+Proof. unfold has_delta, U1. rewrite map_to_list_singleton. simpl. apply orb_false_r. Qed.
+Lemma remove_U1 X : uc_remove (U1 X) [X] = Some ∅.
+Proof. unfold uc_remove, U1. rewrite lookup_singleton. rewrite delete_singleton. reflexivity. Qed.
+
+Section Q2.
+Context (qk : quirks).
+Lemma add_ref_offset r X d o : offset_unit r X d o → add_ref qk r X ∅ = Ok (u_ref d).
+Proof.
+  intros H. unfold add_ref. rewrite (ou_lookup _ _ _ _ H). unfold is_log. rewrite (ou_conv _ _ _ _ H).
+  rewrite (offset_unit_nonmult _ _ _ _ H). simpl.
+  destruct (q_ref_drops_units qk); [reflexivity|]. rewrite uc_mul_empty_l by exact (ou_wfref _ _ _ _ H). reflexivity.
+Qed.
+
+(** what one side of a conversion contributes: its converter (offset unit) or nothing, and the
+    multiplicative container that takes part in the factor *)
+Inductive side (r : reg) (X : string) : option udef → uc → Prop :=
+| side_offset d o : offset_unit r X d o → side r X (Some d) (u_ref d)
+| side_plain d : plain_unit r X d → side r X None (U1 X).
+
+Theorem conv_plan_single r auto X Y ox mx oy my d f :
+  X ≠ Y → side r X ox mx → side r Y oy my →
+  dim_of r (U1 X) = Ok d → dim_of r (U1 Y) = Ok d →
+  (is_Some ox ∨ is_Some oy → is_delta_name X = false ∧ is_delta_name Y = false) →
+  plain_factor r mx my = Ok f →
+  conv_plan qk r auto (U1 X) (U1 Y) = Ok (Plan ox f oy).
+Proof.
+  intros N SX SY DX DY ND PF. unfold conv_plan. rewrite (U1_neq _ _ N).
+  destruct SX as [dx ox HX|dx HX], SY as [dy oy HY|dy HY].
+  - destruct ND as [NX NY]; [left; eauto|].
+    rewrite (validate_U1_offset _ _ _ _ _ HX), (validate_U1_offset _ _ _ _ _ HY). simpl.
+    rewrite DX, DY. simpl. unfold uc_eqb at 1. rewrite bool_decide_eq_true_2 by reflexivity. simpl.
+    rewrite has_delta_U1, NY. unfold lookup_unit. rewrite (ou_lookup _ _ _ _ HX). simpl. rewrite remove_U1. simpl.
+    rewrite (add_ref_offset _ _ _ _ HX). simpl. rewrite (ou_refnodelta _ _ _ _ HX).
+    rewrite (ou_lookup _ _ _ _ HY). simpl. rewrite remove_U1. simpl. rewrite (add_ref_offset _ _ _ _ HY). simpl.
+    rewrite PF. reflexivity.
+  - destruct ND as [NX NY]; [left; eauto|].
+    rewrite (validate_U1_offset _ _ _ _ _ HX), (validate_U1_plain _ _ _ _ HY). simpl.
+    rewrite DX, DY. simpl. unfold uc_eqb at 1. rewrite bool_decide_eq_true_2 by reflexivity. simpl.
+    rewrite has_delta_U1, NY. unfold lookup_unit. rewrite (ou_lookup _ _ _ _ HX). simpl. rewrite remove_U1. simpl.
+    rewrite (add_ref_offset _ _ _ _ HX). simpl. rewrite PF. reflexivity.
+  - destruct ND as [NX NY]; [right; eauto|].
+    rewrite (validate_U1_plain _ _ _ _ HX), (validate_U1_offset _ _ _ _ _ HY). simpl.
+    rewrite DX, DY. simpl. unfold uc_eqb at 1. rewrite bool_decide_eq_true_2 by reflexivity. simpl.
+    rewrite has_delta_U1, NX. unfold lookup_unit. rewrite (ou_lookup _ _ _ _ HY). simpl. rewrite remove_U1. simpl.
+    rewrite (add_ref_offset _ _ _ _ HY). simpl. rewrite PF. reflexivity.
+  - rewrite (validate_U1_plain _ _ _ _ HX), (validate_U1_plain _ _ _ _ HY). simpl. rewrite PF. reflexivity.
+Qed.
+
+(** degX -> degY is the affine map x |-> ((s_X x + o_X) f - o_Y) / s_Y, with f the factor between
+    the two reference units (f = 1 when both are defined over the same reference) *)
+Theorem offset_conv_affine r auto inpl X Y dx ox dy oy d f x :
+  X ≠ Y → offset_unit r X dx ox → offset_unit r Y dy oy →
+  dim_of r (U1 X) = Ok d → dim_of r (U1 Y) = Ok d →
+  plain_factor r (u_ref dx) (u_ref dy) = Ok f →
+  convert_gen qk inpl r auto x (U1 X) (U1 Y) = Ok (((x * u_scale dx + ox) * f - oy) / u_scale dy)%Qc.
+Proof.
+  intros N HX HY DX DY PF. unfold convert_gen.
+  rewrite (conv_plan_single r auto X Y (Some dx) (u_ref dx) (Some dy) (u_ref dy) d f); try assumption.
+  - unfold apply_plan. simpl. rewrite (to_ref_offset _ _ _ _ (ou_conv _ _ _ _ HX)). simpl.
+    rewrite (from_ref_offset _ _ _ _ (ou_conv _ _ _ _ HY) (ou_scale _ _ _ _ HY)). reflexivity.
+  - econstructor; eassumption.
+  - econstructor; eassumption.
+  - intros _. split; [exact (ou_nodelta _ _ _ _ HX) | exact (ou_nodelta _ _ _ _ HY)].
+Qed.
+(** offset -> absolute (kelvin, degR): x |-> (s_X x + o_X) f ;  absolute -> offset: x |-> (x f - o_Y) / s_Y *)
+Theorem offset_to_plain r auto inpl X Y dx ox dy d f x :
+  offset_unit r X dx ox → plain_unit r Y dy → is_delta_name Y = false →
+  dim_of r (U1 X) = Ok d → dim_of r (U1 Y) = Ok d →
+  plain_factor r (u_ref dx) (U1 Y) = Ok f →
+  convert_gen qk inpl r auto x (U1 X) (U1 Y) = Ok ((x * u_scale dx + ox) * f)%Qc.
+Proof.
+  intros HX HY NY DX DY PF. unfold convert_gen.
+  assert (N : X ≠ Y).
+  { intros ->. destruct HY as [L M]. rewrite (ou_lookup _ _ _ _ HX) in L. injection L as <-.
+    rewrite (offset_unit_nonmult _ _ _ _ HX) in M. discriminate. }
+  rewrite (conv_plan_single r auto X Y (Some dx) (u_ref dx) None (U1 Y) d f); try assumption.
+  - unfold apply_plan. simpl. rewrite (to_ref_offset _ _ _ _ (ou_conv _ _ _ _ HX)). reflexivity.
+  - econstructor; eassumption.
+  - econstructor; eassumption.
+  - intros _. split; [exact (ou_nodelta _ _ _ _ HX) | exact NY].
+Qed.
+Theorem plain_to_offset r auto inpl X Y dx dy oy d f x :
+  plain_unit r X dx → offset_unit r Y dy oy → is_delta_name X = false →
+  dim_of r (U1 X) = Ok d → dim_of r (U1 Y) = Ok d →
+  plain_factor r (U1 X) (u_ref dy) = Ok f →
+  convert_gen qk inpl r auto x (U1 X) (U1 Y) = Ok ((x * f - oy) / u_scale dy)%Qc.
+Proof.
+  intros HX HY NX DX DY PF. unfold convert_gen.
+  assert (N : X ≠ Y).
+  { intros ->. destruct HX as [L M]. rewrite (ou_lookup _ _ _ _ HY) in L. injection L as <-.
+    rewrite (offset_unit_nonmult _ _ _ _ HY) in M. discriminate. }
+  rewrite (conv_plan_single r auto X Y None (U1 X) (Some dy) (u_ref dy) d f); try assumption.
+  - unfold apply_plan. simpl. rewrite (from_ref_offset _ _ _ _ (ou_conv _ _ _ _ HY) (ou_scale _ _ _ _ HY)). reflexivity.
+  - econstructor; eassumption.
+  - econstructor; eassumption.
+  - intros _. split; [exact NX | exact (ou_nodelta _ _ _ _ HY)].
+Qed.
+(** delta units (and every other pair of multiplicative units) convert by a scale factor only:
+    no converter is applied on either side — in particular 0 maps to 0 *)
+Theorem delta_conv_scale_only r auto inpl X Y dx dy f x :
+  X ≠ Y → plain_unit r X dx → plain_unit r Y dy →
+  plain_factor r (U1 X) (U1 Y) = Ok f →
+  convert_gen qk inpl r auto x (U1 X) (U1 Y) = Ok (x * f)%Qc.
+Proof.
+  intros N HX HY PF. unfold convert_gen, conv_plan. rewrite (U1_neq _ _ N).
+  rewrite (validate_U1_plain _ _ _ _ HX), (validate_U1_plain _ _ _ _ HY). simpl. rewrite PF. reflexivity.
+Qed.
+(** an offset unit never converts to or from a delta unit *)
+Theorem offset_delta_refused r auto inpl X Y dx ox dy a b x :
+  offset_unit r X dx ox → plain_unit r Y dy → is_delta_name Y = true →
+  dim_of r (U1 X) = Ok a → dim_of r (U1 Y) = Ok b →
+  convert_gen qk inpl r auto x (U1 X) (U1 Y) = Err EDim ∧ convert_gen qk inpl r auto x (U1 Y) (U1 X) = Err EDim.
+Proof.
+  intros HX HY DY E1 E2.
+  assert (N : X ≠ Y) by (intros ->; rewrite (ou_nodelta _ _ _ _ HX) in DY; discriminate).
+  assert (N' : Y ≠ X) by congruence.
+  unfold convert_gen, conv_plan. rewrite (U1_neq _ _ N), (U1_neq _ _ N').
+  rewrite (validate_U1_offset _ _ _ _ _ HX), (validate_U1_plain _ _ _ _ HY). simpl. rewrite E1, E2. simpl. split.
+  - destruct (negb (uc_eqb a b)); [reflexivity|]. rewrite has_delta_U1, DY. reflexivity.
+  - destruct (negb (uc_eqb b a)); [reflexivity|]. simpl. rewrite has_delta_U1, DY. reflexivity.
+Qed.
+
+(** round trip and path independence, given the corresponding facts about the multiplicative
+    factors between the reference units (C02: [conv_factor_inverse], [conv_factor_path]) *)
+Theorem conv_offset_roundtrip_f r auto inpl X Y dx ox dy oy d f g x :
+  X ≠ Y → offset_unit r X dx ox → offset_unit r Y dy oy →
+  dim_of r (U1 X) = Ok d → dim_of r (U1 Y) = Ok d →
+  plain_factor r (u_ref dx) (u_ref dy) = Ok f → plain_factor r (u_ref dy) (u_ref dx) = Ok g → (f * g = 1)%Qc →
+  (y ←r convert_gen qk inpl r auto x (U1 X) (U1 Y); convert_gen qk inpl r auto y (U1 Y) (U1 X)) = Ok x.
+Proof.
+  intros N HX HY DX DY F G FG.
+  rewrite (offset_conv_affine r auto inpl X Y dx ox dy oy d f x N HX HY DX DY F). simpl.
+  rewrite (offset_conv_affine r auto inpl Y X dy oy dx ox d g _ (not_eq_sym N) HY HX DY DX G). f_equal.
+  assert (Fn : f ≠ 0%Qc) by (intros ->; rewrite Qcmult_0_l in FG; discriminate).
+  assert (Gv : g = (/ f)%Qc) by (transitivity ((f * g) * / f)%Qc; [field; exact Fn | rewrite FG; ring]).
+  pose proof (ou_scale _ _ _ _ HX). pose proof (ou_scale _ _ _ _ HY).
+  rewrite Gv. field. repeat split; assumption.
+Qed.
+Theorem conv_offset_path_f r auto inpl X Y Z dx ox dy oy dz oz d f g h x :
+  X ≠ Y → Y ≠ Z → X ≠ Z → offset_unit r X dx ox → offset_unit r Y dy oy → offset_unit r Z dz oz →
+  dim_of r (U1 X) = Ok d → dim_of r (U1 Y) = Ok d → dim_of r (U1 Z) = Ok d →
+  plain_factor r (u_ref dx) (u_ref dy) = Ok f → plain_factor r (u_ref dy) (u_ref dz) = Ok g →
+  plain_factor r (u_ref dx) (u_ref dz) = Ok h → (f * g = h)%Qc →
+  (y ←r convert_gen qk inpl r auto x (U1 X) (U1 Y); convert_gen qk inpl r auto y (U1 Y) (U1 Z))
+  = convert_gen qk inpl r auto x (U1 X) (U1 Z).
+Proof.
+  intros N1 N2 N3 HX HY HZ DX DY DZ F G H FG.
+  rewrite (offset_conv_affine r auto inpl X Y dx ox dy oy d f x N1 HX HY DX DY F). simpl.
+  rewrite (offset_conv_affine r auto inpl Y Z dy oy dz oz d g _ N2 HY HZ DY DZ G).
+  rewrite (offset_conv_affine r auto inpl X Z dx ox dz oz d h x N3 HX HZ DX DZ H). f_equal.
+  pose proof (ou_scale _ _ _ _ HZ). pose proof (ou_scale _ _ _ _ HY).
+  rewrite <- FG. field. repeat split; assumption.
+Qed.
+End Q2.
+
+Local Arguments convert_gen : simpl never.
+(** * [nonmult_units] is the filter of the non-multiplicative entries *)
+Definition is_nm (r : reg) (k : string) : bool :=
+  match resolve r k with Ok d => negb (u_multiplicative d) | Err _ => false end.
+Definition nm_step (r : reg) (acc : list (string * Qc)) (kv : string * Qc) : res (list (string * Qc)) :=
+  d ←r resolve r kv.1; Ok (if u_multiplicative d then acc else app acc [kv]).
+Lemma nonmult_units_unfold r u : nonmult_units r u = foldM (nm_step r) (map_to_list u) [].
+Proof. reflexivity. Qed.
+Lemma nm_fold r l : ∀ acc out, foldM (nm_step r) l acc = Ok out →
+  out = app acc (filter (λ kv, is_nm r kv.1 = true) l).
+Proof.
+  induction l as [|kv l IH]; intros acc out H; simpl in H.
+  - injection H as <-. rewrite filter_nil, app_nil_r. reflexivity.
+  - unfold nm_step at 1 in H. destruct (resolve r kv.1) as [d|e] eqn:E; simpl in H; [|discriminate].
+    assert (N : is_nm r kv.1 = negb (u_multiplicative d)) by (unfold is_nm; rewrite E; reflexivity).
+    rewrite filter_cons. destruct (decide (is_nm r kv.1 = true)) as [T|T]; rewrite N in T.
+    + destruct (u_multiplicative d); [discriminate|]. apply IH in H. rewrite H, <- app_assoc. reflexivity.
+    + destruct (u_multiplicative d); [|exfalso; apply T; reflexivity]. apply IH. exact H.
+Qed.
+Lemma nonmult_units_filter r u l : nonmult_units r u = Ok l →
+  l = filter (λ kv, is_nm r kv.1 = true) (map_to_list u).
+Proof. intros H. rewrite nonmult_units_unfold in H. apply nm_fold in H. exact H. Qed.
+Lemma nonmult_units_elem r u l k e : nonmult_units r u = Ok l →
+  ((k, e) ∈ l ↔ u !! k = Some e ∧ is_nm r k = true).
+Proof.
+  intros H. rewrite (nonmult_units_filter _ _ _ H). rewrite elem_of_list_filter, elem_of_map_to_list. simpl. tauto.
+Qed.
+
+Lemma uc_eqb_refl (a : uc) : uc_eqb a a = true.
+Proof. unfold uc_eqb. apply bool_decide_eq_true_2. reflexivity. Qed.
+Lemma uneq_of_nm r a b x y : nonmult_units r a = Ok x → nonmult_units r b = Ok y → x ≠ y → uc_eqb a b = false.
+Proof.
+  intros Ha Hb N. unfold uc_eqb. apply bool_decide_eq_false. intros ->. rewrite Ha in Hb. injection Hb as ->. apply N. reflexivity.
+Qed.
+
+Definition ambiguous (nm : list (string * Qc)) : Prop := nm ≠ [] ∧ single_order1 nm = None.
+Lemma validate_ambig r auto u nm : nonmult_units r u = Ok nm → ambiguous nm → validate_dim r auto u = Err EDim.
+Proof.
+  intros H [N S]. unfold validate_dim, validate_extract. rewrite H. simpl.
+  destruct nm as [|[n e] [|p l]]; [contradiction| |reflexivity].
+  simpl in S. destruct (bool_decide (e = 1%Qc)); [discriminate|]. reflexivity.
+Qed.
+Lemma validate_cases r auto u nm : nonmult_units r u = Ok nm →
+  validate_dim r auto u = Err EDim ∨ validate_dim r auto u = Ok (single_order1 nm).
+Proof.
+  intros H. unfold validate_dim, validate_extract. rewrite H. simpl.
+  destruct nm as [|[n e] [|p l]]; [right; reflexivity| |left; reflexivity].
+  simpl. destruct (bool_decide (e = 1%Qc)); simpl; [|left; reflexivity].
+  destruct (_ && _); [left|right]; reflexivity.
+Qed.
+
+Section Tconv.
+Context (qk : quirks).
+
+Lemma convert_same inpl r auto x u : convert_gen qk inpl r auto x u u = Ok x.
+Proof.
+  unfold convert_gen, conv_plan. rewrite uc_eqb_refl. simpl. unfold apply_plan. simpl. f_equal. ring.
+Qed.
+Lemma convert_src_ambig inpl r auto x src dst nm :
+  nonmult_units r src = Ok nm → ambiguous nm → uc_eqb src dst = false →
+  convert_gen qk inpl r auto x src dst = Err EDim.
+Proof.
+  intros H A N. unfold convert_gen, conv_plan. rewrite N, (validate_ambig _ _ _ _ H A). reflexivity.
+Qed.
+Lemma convert_dst_ambig inpl r auto x src dst nms nmd :
+  nonmult_units r src = Ok nms → nonmult_units r dst = Ok nmd → ambiguous nmd → uc_eqb src dst = false →
+  convert_gen qk inpl r auto x src dst = Err EDim.
+Proof.
+  intros Hs Hd A N. unfold convert_gen, conv_plan. rewrite N.
+  destruct (validate_cases r auto src nms Hs) as [-> | ->]; [reflexivity|]. simpl.
+  rewrite (validate_ambig _ _ _ _ Hd A). reflexivity.
+Qed.
+Lemma convert_delta_to_offset inpl r auto x src dst n a b :
+  nonmult_units r src = Ok [] → has_delta src = true → nonmult_units r dst = Ok [(n, 1%Qc)] →
+  dim_of r src = Ok a → dim_of r dst = Ok b →
+  convert_gen qk inpl r auto x src dst = Err EDim.
+Proof.
+  intros Hs D Hd Da Db. unfold convert_gen, conv_plan.
+  rewrite (uneq_of_nm r src dst _ _ Hs Hd) by discriminate.
+  destruct (validate_cases r auto src _ Hs) as [-> | ->]; [reflexivity|]. simpl.
+  destruct (validate_cases r auto dst _ Hd) as [-> | ->]; [reflexivity|]. simpl.
+  rewrite Da, Db. simpl. destruct (negb (uc_eqb a b)); [reflexivity|]. simpl. rewrite D. reflexivity.
+Qed.
+Lemma convert_offset_to_delta inpl r auto x src dst n a b :
+  nonmult_units r src = Ok [(n, 1%Qc)] → nonmult_units r dst = Ok [] → has_delta dst = true →
+  dim_of r src = Ok a → dim_of r dst = Ok b →
+  convert_gen qk inpl r auto x src dst = Err EDim.
+Proof.
+  intros Hs Hd D Da Db. unfold convert_gen, conv_plan.
+  rewrite (uneq_of_nm r src dst _ _ Hs Hd) by discriminate.
+  destruct (validate_cases r auto src _ Hs) as [-> | ->]; [reflexivity|]. simpl.
+  destruct (validate_cases r auto dst _ Hd) as [-> | ->]; [reflexivity|]. simpl.
+  rewrite Da, Db. simpl. destruct (negb (uc_eqb a b)); [reflexivity|]. simpl. rewrite D. reflexivity.
+Qed.
+
+Lemma has_delta_units u : has_delta u = false → delta_units u = [].
+Proof.
+  unfold has_delta, delta_units. induction (map_to_list u) as [|[k v] l IH]; simpl; [reflexivity|].
+  intros H. apply orb_false_iff in H as [H1 H2]. rewrite filter_cons. simpl. rewrite decide_False by (rewrite H1; discriminate).
+  apply IH. exact H2.
+Qed.
+Lemma compat_no_delta r u n : has_delta u = false → has_compatible_delta qk r u n = false.
+Proof.
+  intros H. unfold has_compatible_delta. rewrite (has_delta_units _ H). simpl. destruct (r_units r !! n); reflexivity.
+Qed.
+
+(** the delta_ counterpart of an offset unit is itself multiplicative *)
+Definition delta_mult (r : reg) (n : string) : Prop := is_nm r ("delta_" ++ n) = false.
+Lemma rename_neq r ua ub na nmb :
+  nonmult_units r ua = Ok [(na, 1%Qc)] → delta_mult r na → nonmult_units r ub = Ok nmb → nmb ≠ [] →
+  uc_eqb ub (rename_delta ua na) = false.
+Proof.
+  intros Ha Dm Hb N. unfold uc_eqb. apply bool_decide_eq_false. intros E.
+  destruct nmb as [|[k e] l]; [contradiction|].
+  assert (K : (k, e) ∈ (k, e) :: l) by left.
+  apply (nonmult_units_elem _ _ _ k e Hb) in K as [K1 K2].
+  assert (A : ua !! na = Some 1%Qc).
+  { apply (nonmult_units_elem _ _ _ na 1%Qc Ha). left. }
+  rewrite E in K1. unfold rename_delta, uc_rename in K1. rewrite A in K1. simpl in K1.
+  destruct (decide (k = "delta_" ++ na)) as [->|Nk].
+  - unfold delta_mult in Dm. congruence.
+  - rewrite lookup_insert_ne in K1 by congruence.
+    destruct (decide (k = na)) as [->|Nk2]; [rewrite lookup_delete in K1; discriminate|].
+    rewrite lookup_delete_ne in K1 by congruence.
+    assert (M : (k, e) ∈ [(na, 1%Qc)]) by (apply (nonmult_units_elem _ _ _ k e Ha); split; assumption).
+    apply elem_of_list_singleton in M. congruence.
+Qed.
+End Tconv.
+
+(** * The add/sub decision table *)
+Local Arguments has_compatible_delta : simpl never.
+Local Arguments sub_ok : simpl never.
+Local Arguments convert_gen : simpl never.
+Local Arguments rename_delta : simpl never.
+
+Section Ttable.
+Context (qk : quirks).
+
+Lemma snd_if {A B} (b : bool) (x y : A * B) : (if b then x else y).2 = if b then x.2 else y.2.
+Proof. destruct b; reflexivity. Qed.
+Ltac push := repeat rewrite snd_if; cbn [snd]; rewrite ?andb_false_r, ?andb_true_r; cbn [andb negb].
+
+Definition refused (x : res quantity) : Prop := ∃ e, x = Err e ∧ (e = EOffset ∨ e = EDim).
+Lemma refused_offset : refused (Err EOffset). Proof. exists EOffset. split; [reflexivity | left; reflexivity]. Qed.
+Lemma refused_bind_dim {A} (c : res A) (k : A → res quantity) : c = Err EDim → refused (x ←r c; k x).
+Proof. intros ->. exists EDim. split; [reflexivity | right; reflexivity]. Qed.
+
+Definition table_claim (r : reg) (auto sub : bool) (w : row) xa ua xb ub : Prop :=
+  match w with
+  | RUndocumented => True
+  | RRefuse => refused (add_sub qk r auto sub (OQty xa ua) (OQty xb ub)).2
+  | _ => (add_sub qk r auto sub (OQty xa ua) (OQty xb ub)).2 = row_result qk r auto sub w xa ua xb ub
+  end.
+
+Theorem add_sub_table r auto sub xa ua xb ub d nma nmb :
+  dim_of r ua = Ok d → dim_of r ub = Ok d →
+  nonmult_units r ua = Ok nma → nonmult_units r ub = Ok nmb →
+  (∀ n, single_order1 nma = Some n → delta_mult r n) →
+  (∀ n, single_order1 nmb = Some n → delta_mult r n) →
+  let ca := classify qk r nma ua in
+  let cb := classify qk r nmb ub in
+  let cab := match ca with KOffset n _ => has_compatible_delta qk r ub n | _ => false end in
+  let cba := match cb with KOffset n _ => has_compatible_delta qk r ua n | _ => false end in
+  table_claim r auto sub (offset_table sub ca cb cab cba) xa ua xb ub.
+Proof.
+  intros Da Db Na Nb Ma Mb. unfold table_claim, add_sub, add_sub_gen. rewrite Da, Db, Na, Nb, uc_eqb_refl.
+  cbv zeta. simpl negb. cbv iota.
+  destruct nma as [|[na ea] [|pa la]].
+  - (* a multiplicative *)
+    destruct nmb as [|[nb eb] [|pb lb]].
+    + simpl. push. destruct (has_delta ua) eqn:Ha, (has_delta ub) eqn:Hb; simpl; rewrite ?Ha, ?Hb; reflexivity.
+    + simpl. destruct (bool_decide (eb = 1%Qc)) eqn:Eb.
+      * apply bool_decide_eq_true_1 in Eb. subst eb.
+        destruct (has_delta ub) eqn:Hb; [destruct (has_delta ua); exact I|].
+        destruct (has_delta ua) eqn:Ha; simpl.
+        -- (* KDelta, KOffset *)
+           destruct (has_compatible_delta qk r ua nb) eqn:C; simpl; push.
+           ++ rewrite ?andb_false_r. simpl. reflexivity.
+           ++ rewrite ?andb_true_r. destruct (sub && sub_ok qk r nb); simpl.
+              ** apply refused_bind_dim. eapply convert_offset_to_delta; eassumption.
+              ** apply refused_offset.
+        -- (* KMult, KOffset *)
+           rewrite (compat_no_delta qk r ua nb Ha). simpl. push. rewrite ?andb_true_r.
+           destruct (sub && sub_ok qk r nb); simpl; [reflexivity | apply refused_offset].
+      * destruct (has_delta ua); simpl; push; apply refused_offset.
+    + simpl. destruct (has_delta ua); simpl; push; apply refused_offset.
+  - (* a has exactly one non-multiplicative unit *)
+    simpl single_order1. simpl classify.
+    destruct (bool_decide (ea = 1%Qc)) eqn:Ea.
+    + apply bool_decide_eq_true_1 in Ea. subst ea.
+      assert (Dm : delta_mult r na) by (apply Ma; simpl; reflexivity).
+      destruct (has_delta ua) eqn:Ha; [exact I|].
+      assert (SL : ∀ y, (if uc_eqb ua ub then Ok y else convert qk r auto y ub ua) = convert qk r auto y ub ua).
+      { intros y. destruct (uc_eqb ua ub) eqn:E; [|reflexivity]. apply uc_eqb_spec in E. subst ub.
+        unfold convert. rewrite convert_same. reflexivity. }
+      destruct nmb as [|[nb eb] [|pb lb]].
+      * (* b multiplicative *)
+        simpl. destruct (has_delta ub) eqn:Hb; simpl.
+        -- destruct (has_compatible_delta qk r ub na) eqn:C; simpl; push.
+           ++ rewrite ?andb_false_r. simpl. reflexivity.
+           ++ rewrite ?andb_true_r. destruct (sub && sub_ok qk r na); simpl.
+              ** rewrite SL. apply refused_bind_dim. eapply convert_delta_to_offset; eassumption.
+              ** apply refused_offset.
+        -- rewrite (compat_no_delta qk r ub na Hb). simpl. push. rewrite ?andb_true_r.
+           destruct (sub && sub_ok qk r na); simpl; [rewrite SL; reflexivity | apply refused_offset].
+      * simpl single_order1. simpl classify.
+        destruct (bool_decide (eb = 1%Qc)) eqn:Eb.
+        -- apply bool_decide_eq_true_1 in Eb. subst eb.
+           destruct (has_delta ub) eqn:Hb; [exact I|].
+           rewrite (compat_no_delta qk r ub na Hb), (compat_no_delta qk r ua nb Ha). simpl. push.
+           rewrite ?andb_true_r. destruct sub; simpl; [|apply refused_offset].
+           destruct (sub_ok qk r na); simpl; [rewrite SL; reflexivity|].
+           destruct (sub_ok qk r nb); simpl; [reflexivity | apply refused_offset].
+        -- (* b ambiguous: exponent <> 1 *)
+           assert (Ab : ambiguous [(nb, eb)]) by (split; [discriminate | simpl; rewrite Eb; reflexivity]).
+           assert (Nab : uc_eqb ub ua = false) by (eapply uneq_of_nm; try eassumption; intros [= -> ->]; apply bool_decide_eq_false_1 in Eb; apply Eb; reflexivity).
+           simpl. push. rewrite ?andb_false_r. simpl.
+           destruct (sub && sub_ok qk r na && negb (has_compatible_delta qk r ub na)); simpl.
+           ++ rewrite SL. apply refused_bind_dim. eapply convert_src_ambig; eassumption.
+           ++ destruct (has_compatible_delta qk r ub na); simpl; [|apply refused_offset].
+              apply refused_bind_dim. eapply convert_src_ambig; try eassumption.
+              eapply rename_neq; try eassumption. discriminate.
+      * (* b ambiguous: two or more *)
+        assert (Ab : ambiguous ((nb, eb) :: pb :: lb)) by (split; [discriminate | reflexivity]).
+        assert (Nab : uc_eqb ub ua = false) by (eapply uneq_of_nm; try eassumption; discriminate).
+        simpl. push. rewrite ?andb_false_r. simpl.
+        destruct (sub && sub_ok qk r na && negb (has_compatible_delta qk r ub na)); simpl.
+        -- rewrite SL. apply refused_bind_dim. eapply convert_src_ambig; eassumption.
+        -- destruct (has_compatible_delta qk r ub na); simpl; [|apply refused_offset].
+           apply refused_bind_dim. eapply convert_src_ambig; try eassumption.
+           eapply rename_neq; try eassumption. discriminate.
+    + assert (Aa : ambiguous [(na, ea)]) by (split; [discriminate | simpl; rewrite Ea; reflexivity]).
+
+      (* a ambiguous *)
+      destruct nmb as [|[nb eb] [|pb lb]].
+      * simpl. destruct (has_delta ub); simpl; push; apply refused_offset.
+      * simpl single_order1. simpl classify.
+        destruct (bool_decide (eb = 1%Qc)) eqn:Eb.
+        -- apply bool_decide_eq_true_1 in Eb. subst eb.
+           assert (Dm : delta_mult r nb) by (apply Mb; simpl; reflexivity).
+           destruct (has_delta ub) eqn:Hb; [exact I|].
+           simpl. push.
+           destruct (sub && sub_ok qk r nb && negb (has_compatible_delta qk r ua nb)); simpl.
+           ++ apply refused_bind_dim. eapply convert_dst_ambig; try eassumption.
+              eapply uneq_of_nm; try eassumption. intros [= <- <-]; apply bool_decide_eq_false_1 in Ea; apply Ea; reflexivity.
+           ++ destruct (has_compatible_delta qk r ua nb); simpl; [|apply refused_offset].
+              apply refused_bind_dim. eapply convert_src_ambig; try eassumption.
+              eapply rename_neq; try eassumption. discriminate.
+        -- simpl. push. apply refused_offset.
+      * simpl. push. apply refused_offset.
+  - assert (Aa : ambiguous ((na, ea) :: pa :: la)) by (split; [discriminate | reflexivity]).
+    simpl single_order1. simpl classify.
+
+      (* a ambiguous *)
+      destruct nmb as [|[nb eb] [|pb lb]].
+      * simpl. destruct (has_delta ub); simpl; push; apply refused_offset.
+      * simpl single_order1. simpl classify.
+        destruct (bool_decide (eb = 1%Qc)) eqn:Eb.
+        -- apply bool_decide_eq_true_1 in Eb. subst eb.
+           assert (Dm : delta_mult r nb) by (apply Mb; simpl; reflexivity).
+           destruct (has_delta ub) eqn:Hb; [exact I|].
+           simpl. push.
+           destruct (sub && sub_ok qk r nb && negb (has_compatible_delta qk r ua nb)); simpl.
+           ++ apply refused_bind_dim. eapply convert_dst_ambig; try eassumption.
+              eapply uneq_of_nm; try eassumption. discriminate.
+           ++ destruct (has_compatible_delta qk r ua nb); simpl; [|apply refused_offset].
+              apply refused_bind_dim. eapply convert_src_ambig; try eassumption.
+              eapply rename_neq; try eassumption. discriminate.
+        -- simpl. push. apply refused_offset.
+      * simpl. push. apply refused_offset.
+Qed.
+End Ttable.
+
+(** * Multiplication, division, powers *)
+Local Arguments to_root_gen : simpl never.
+Local Arguments size : simpl never.
+
+Lemma size1_list (u : uc) n e : size u = 1%nat → u !! n = Some e → map_to_list u = [(n, e)].
+Proof.
+  intros S L. assert (Len : length (map_to_list u) = 1%nat) by exact S.
+  apply elem_of_map_to_list in L.
+  destruct (map_to_list u) as [|p [|p' l]]; simpl in Len; try discriminate.
+  apply elem_of_list_singleton in L. subst p. reflexivity.
+Qed.
+Lemma size_pos (u : uc) n e : u !! n = Some e → size u ≠ 0%nat.
+Proof. intros L S. apply map_size_empty_inv in S. subst u. rewrite lookup_empty in L. discriminate. Qed.
+
+Section Tmuldiv.
+Context (qk : quirks).
+
+Lemma ok_class r auto u nm : nonmult_units r u = Ok nm →
+  match mclassify nm u with
+  | MCMult => nm = [] ∧ ok_for_muldiv auto u (length nm) = true
+  | MCSingle _ => length nm = 1%nat ∧ size u = 1%nat ∧ ok_for_muldiv auto u (length nm) = auto
+  | MCAmbig => nm ≠ [] ∧ ok_for_muldiv auto u (length nm) = false
+  end.
+Proof.
+  intros H. destruct nm as [|[n e] [|p l]]; simpl mclassify.
+  - split; reflexivity.
+  - assert (L : u !! n = Some e) by (apply (nonmult_units_elem _ _ _ n e H); left).
+    unfold ok_for_muldiv. simpl length. simpl Nat.ltb. simpl Nat.eqb. cbv iota.
+    destruct (Nat.eqb (size u) 1) eqn:S.
+    + apply Nat.eqb_eq in S. rewrite (size1_list u n e S L), S. simpl.
+      destruct (bool_decide (e = 1%Qc)) eqn:E; simpl.
+      * split; [reflexivity|]. split; [reflexivity|]. destruct auto; reflexivity.
+      * split; [discriminate|]. destruct auto; reflexivity.
+    + rewrite andb_false_r. split; [discriminate|].
+      apply Nat.eqb_neq in S. pose proof (size_pos u n e L).
+      assert (T : Nat.ltb 1 (size u) = true) by (apply Nat.ltb_lt; lia). rewrite T. reflexivity.
+  - split; [discriminate|]. reflexivity.
+Qed.
+
+Theorem muldiv_table r auto div xa ua xb ub nma nmb :
+  nonmult_units r ua = Ok nma → nonmult_units r ub = Ok nmb →
+  (mul_div qk r auto div (OQty xa ua) (OQty xb ub)).2
+  = spec_mul_div qk r auto div (mclassify nma ua) (mclassify nmb ub) (xa, ua) (xb, ub).
+Proof.
+  intros Na Nb. unfold mul_div, mul_div_gen. rewrite Na, Nb.
+  pose proof (ok_class r auto ua nma Na) as Ha. pose proof (ok_class r auto ub nmb Nb) as Hb.
+  unfold spec_mul_div, mprep, auto_root.
+  destruct (mclassify nma ua).
+  - destruct Ha as [-> Oa]. rewrite Oa. simpl.
+    destruct (mclassify nmb ub).
+    + destruct Hb as [-> Ob]. rewrite Ob. reflexivity.
+    + destruct Hb as (Lb & Sb & Ob). rewrite Ob, Lb, Sb. simpl. destruct auto; reflexivity.
+    + destruct Hb as [_ Ob]. rewrite Ob. reflexivity.
+  - destruct Ha as (La & Sa & Oa). rewrite Oa, La. simpl. rewrite Sa. simpl.
+    destruct auto; simpl; [|reflexivity]. unfold to_root.
+    destruct (to_root_gen qk false r true (xa, ua)) as [a'|e]; simpl; [|reflexivity].
+    destruct (mclassify nmb ub).
+    + destruct Hb as [-> Ob]. rewrite Ob. reflexivity.
+    + destruct Hb as (Lb & Sb & Ob). rewrite Ob, Lb, Sb. reflexivity.
+    + destruct Hb as [_ Ob]. rewrite Ob. reflexivity.
+  - destruct Ha as [_ Oa]. rewrite Oa. reflexivity.
+Qed.
+
+(** quantity (op) number, and number * quantity *)
+Theorem mul_num_table r auto div xa ua y nma :
+  nonmult_units r ua = Ok nma →
+  (mul_div qk r auto div (OQty xa ua) (ONum y)).2 = spec_mul_num auto div (mclassify nma ua) (xa, ua) y
+  ∧ (mul_div qk r auto false (ONum y) (OQty xa ua)).2 = spec_mul_num auto false (mclassify nma ua) (xa, ua) y.
+Proof.
+  intros Na. unfold mul_div, mul_div_gen. rewrite Na. simpl negb. cbv iota.
+  pose proof (ok_class r auto ua nma Na) as Ha. unfold spec_mul_num.
+  destruct nma as [|[n e] [|p l]]; simpl mclassify in *.
+  - destruct Ha as [_ Oa]. rewrite Oa. split; reflexivity.
+  - destruct (bool_decide (e = 1%Qc) && Nat.eqb (size ua) 1) eqn:C.
+    + destruct Ha as (_ & _ & Oa). rewrite Oa. apply andb_true_iff in C as [C _]. rewrite C.
+      destruct auto, div; split; reflexivity.
+    + destruct Ha as [_ Oa]. rewrite Oa. split; reflexivity.
+  - destruct Ha as [_ Oa]. rewrite Oa. split; reflexivity.
+Qed.
+(** number / quantity ([__rtruediv__]) *)
+Theorem rdiv_table r auto y xb ub nmb :
+  nonmult_units r ub = Ok nmb →
+  (mul_div qk r auto true (ONum y) (OQty xb ub)).2
+  = (b' ←r mprep qk r auto (mclassify nmb ub) (xb, ub); m ←r mop2 true y b'.1; Ok (m, uc_inv b'.2)).
+Proof.
+  intros Nb. unfold mul_div, mul_div_gen. rewrite Nb. simpl negb. cbv iota.
+  pose proof (ok_class r auto ub nmb Nb) as Hb. unfold mprep, auto_root. cbn [snd fst].
+  destruct (mclassify nmb ub).
+  - destruct Hb as [-> Ob]. rewrite Ob. reflexivity.
+  - destruct Hb as (Lb & Sb & Ob). rewrite Ob, Lb, Sb. destruct auto; reflexivity.
+  - destruct Hb as [_ Ob]. rewrite Ob. reflexivity.
+Qed.
+
+(** powers *)
+Theorem pow_table r auto q e nm :
+  nonmult_units r q.2 = Ok nm →
+  (q_pow qk r auto q e).2 =
+    if (e =? 1)%Z then Ok q
+    else if (e =? 0)%Z then Ok (1%Qc, ∅)
+    else match nm with
+         | [] => pow_plain q e
+         | _ => if auto then (q' ←r to_root qk r auto q; pow_plain q' e) else Err EOffset
+         end.
+Proof.
+  intros H. unfold q_pow, q_pow_gen. rewrite H.
+  destruct (e =? 1)%Z; [reflexivity|]. destruct (e =? 0)%Z; [reflexivity|].
+  destruct nm; [reflexivity|]. destruct auto; reflexivity.
+Qed.
+
+(** * Refusal of ambiguity, as corollaries *)
+Theorem refuse_add_sub r auto sub xa ua xb ub d nma nmb :
+  dim_of r ua = Ok d → dim_of r ub = Ok d →
+  nonmult_units r ua = Ok nma → nonmult_units r ub = Ok nmb →
+  (∀ n, single_order1 nma = Some n → delta_mult r n) →
+  (∀ n, single_order1 nmb = Some n → delta_mult r n) →
+  offset_table sub (classify qk r nma ua) (classify qk r nmb ub)
+    (match classify qk r nma ua with KOffset n _ => has_compatible_delta qk r ub n | _ => false end)
+    (match classify qk r nmb ub with KOffset n _ => has_compatible_delta qk r ua n | _ => false end) = RRefuse →
+  refused (add_sub qk r auto sub (OQty xa ua) (OQty xb ub)).2.
+Proof.
+  intros Da Db Na Nb Ma Mb W.
+  pose proof (add_sub_table qk r auto sub xa ua xb ub d nma nmb Da Db Na Nb Ma Mb) as T.
+  cbv zeta in T. rewrite W in T. exact T.
+Qed.
+Theorem refuse_add_sub_dim r auto sub xa ua xb ub da db nma nmb :
+  dim_of r ua = Ok da → dim_of r ub = Ok db → da ≠ db →
+  nonmult_units r ua = Ok nma → nonmult_units r ub = Ok nmb →
+  (add_sub qk r auto sub (OQty xa ua) (OQty xb ub)).2 = Err EDim.
+Proof.
+  intros Da Db N Na Nb. unfold add_sub, add_sub_gen. rewrite Da, Db, Na, Nb.
+  assert (E : uc_eqb da db = false) by (unfold uc_eqb; apply bool_decide_eq_false; exact N).
+  rewrite E. reflexivity.
+Qed.
+Theorem refuse_mul_div r auto div xa ua xb ub nma nmb :
+  nonmult_units r ua = Ok nma → nonmult_units r ub = Ok nmb →
+  mclassify nma ua = MCAmbig ∨ (mclassify nmb ub = MCAmbig ∧ mclassify nma ua = MCMult)
+  ∨ (auto = false ∧ (nma ≠ [] ∨ (nma = [] ∧ nmb ≠ []))) →
+  (mul_div qk r auto div (OQty xa ua) (OQty xb ub)).2 = Err EOffset.
+Proof.
+  intros Na Nb H. rewrite (muldiv_table r auto div xa ua xb ub nma nmb Na Nb).
+  unfold spec_mul_div, mprep. destruct H as [-> | [[-> ->] | [-> H]]]; try reflexivity.
+  destruct H as [H | [-> H]].
+  - destruct nma as [|[n e] [|p l]]; [contradiction| |reflexivity]. simpl.
+    destruct (_ && _); reflexivity.
+  - simpl. destruct nmb as [|[n e] [|p l]]; [contradiction| |reflexivity]. simpl.
+    destruct (_ && _); reflexivity.
+Qed.
+End Tmuldiv.
+
+(** * Corollaries on single units *)
+Local Arguments add_sub : simpl never.
+Local Arguments convert : simpl never.
+Local Arguments rename_delta : simpl never.
+Local Arguments has_compatible_delta : simpl never.
+Local Arguments U1 : simpl never.
+Local Arguments aop2 : simpl never.
+
+Lemma plain_factor_of r a b x e : conv_factor r a b = Ok (Some x, e) → plain_factor r a b = Ok x.
+Proof. intros H. unfold plain_factor. rewrite H. reflexivity. Qed.
+Lemma plain_factor_id r a d : dim_of r a = Ok d → plain_factor r a a = Ok 1%Qc.
+Proof. intros H. eapply plain_factor_of. eapply conv_factor_id. exact H. Qed.
+
+Section Trows.
+Context (qk : quirks).
+
+(** both units defined over the same reference unit: x |-> (s_X x + o_X - o_Y) / s_Y *)
+Theorem offset_conv_affine_same_ref r auto inpl X Y dx ox dy oy d d' x :
+  X ≠ Y → offset_unit r X dx ox → offset_unit r Y dy oy →
+  dim_of r (U1 X) = Ok d → dim_of r (U1 Y) = Ok d →
+  u_ref dx = u_ref dy → dim_of r (u_ref dx) = Ok d' →
+  convert_gen qk inpl r auto x (U1 X) (U1 Y) = Ok ((x * u_scale dx + ox - oy) / u_scale dy)%Qc.
+Proof.
+  intros N HX HY DX DY E D'.
+  rewrite (offset_conv_affine qk r auto inpl X Y dx ox dy oy d 1%Qc x N HX HY DX DY).
+  - f_equal. pose proof (ou_scale _ _ _ _ HY). field. assumption.
+  - rewrite <- E. eapply plain_factor_id. exact D'.
+Qed.
+
+(** with the facts of property C02 about the reference units: round trip and path independence *)
+Theorem conv_offset_roundtrip r auto inpl X Y dx ox dy oy d d' Fa Ba Fb Bb x :
+  X ≠ Y → offset_unit r X dx ox → offset_unit r Y dy oy →
+  dim_of r (U1 X) = Ok d → dim_of r (U1 Y) = Ok d →
+  reg_nz r → exact_unit r (u_ref dx) Fa Ba → exact_unit r (u_ref dy) Fb Bb →
+  dim_of r (u_ref dx) = Ok d' → dim_of r (u_ref dy) = Ok d' →
+  (y ←r convert_gen qk inpl r auto x (U1 X) (U1 Y); convert_gen qk inpl r auto y (U1 Y) (U1 X)) = Ok x.
+Proof.
+  intros N HX HY DX DY Hnz Ea Eb Ra Rb.
+  destruct (conv_factor_inverse r (u_ref dx) (u_ref dy) Fa Ba Fb Bb d' Hnz (ou_wfref _ _ _ _ HX) (ou_wfref _ _ _ _ HY) Ea Eb Ra Rb)
+    as (f & g & e1 & e2 & H1 & H2 & FG).
+  eapply conv_offset_roundtrip_f; try eassumption; eapply plain_factor_of; eassumption.
+Qed.
+Theorem conv_offset_path_independent r auto inpl X Y Z dx ox dy oy dz oz d d' Fa Ba Fb Bb Fc Bc x :
+  X ≠ Y → Y ≠ Z → X ≠ Z → offset_unit r X dx ox → offset_unit r Y dy oy → offset_unit r Z dz oz →
+  dim_of r (U1 X) = Ok d → dim_of r (U1 Y) = Ok d → dim_of r (U1 Z) = Ok d →
+  reg_nz r → exact_unit r (u_ref dx) Fa Ba → exact_unit r (u_ref dy) Fb Bb → exact_unit r (u_ref dz) Fc Bc →
+  dim_of r (u_ref dx) = Ok d' → dim_of r (u_ref dy) = Ok d' → dim_of r (u_ref dz) = Ok d' →
+  (y ←r convert_gen qk inpl r auto x (U1 X) (U1 Y); convert_gen qk inpl r auto y (U1 Y) (U1 Z))
+  = convert_gen qk inpl r auto x (U1 X) (U1 Z).
+Proof.
+  intros N1 N2 N3 HX HY HZ DX DY DZ Hnz Ea Eb Ec Ra Rb Rc.
+  destruct (conv_factor_path r (u_ref dx) (u_ref dy) (u_ref dz) Fa Ba Fb Bb Fc Bc d' Hnz
+              (ou_wfref _ _ _ _ HX) (ou_wfref _ _ _ _ HY) Ea Eb Ec Ra Rb Rc)
+    as (f & g & h & e1 & e2 & e3 & H1 & H2 & H3 & FG).
+  eapply (conv_offset_path_f qk r auto inpl X Y Z dx ox dy oy dz oz d f g h); try eassumption;
+    eapply plain_factor_of; eassumption.
+Qed.
+
+(** * The documented rows on single units, with explicit values *)
+Lemma rename_U1 X : rename_delta (U1 X) X = U1 ("delta_" ++ X).
+Proof. unfold rename_delta, uc_rename, U1. rewrite lookup_singleton. simpl. rewrite delete_singleton. apply insert_empty. Qed.
+Lemma sub_ok_offset r X d o : offset_unit r X d o → sub_ok qk r X = true.
+Proof.
+  intros H. unfold sub_ok. rewrite (ou_lookup _ _ _ _ H). unfold is_log. rewrite (ou_conv _ _ _ _ H). apply orb_true_r.
+Qed.
+Lemma classify_offset r X d o : offset_unit r X d o → classify qk r [(X, 1%Qc)] (U1 X) = KOffset X true.
+Proof.
+  intros H. unfold classify. rewrite bool_decide_eq_true_2 by reflexivity.
+  rewrite has_delta_U1, (ou_nodelta _ _ _ _ H), (sub_ok_offset _ _ _ _ H). reflexivity.
+Qed.
+
+(** offset - offset = delta of the left unit; offset + offset is refused *)
+Theorem offset_minus_offset r auto X Y dx ox dy oy d xa xb :
+  offset_unit r X dx ox → offset_unit r Y dy oy → delta_mult r X → delta_mult r Y →
+  dim_of r (U1 X) = Ok d → dim_of r (U1 Y) = Ok d →
+  (add_sub qk r auto true (OQty xa (U1 X)) (OQty xb (U1 Y))).2
+  = (y ←r convert qk r auto xb (U1 Y) (U1 X); Ok ((xa - y)%Qc, U1 ("delta_" ++ X)))
+  ∧ refused (add_sub qk r auto false (OQty xa (U1 X)) (OQty xb (U1 Y))).2.
+Proof.
+  intros HX HY MX MY DX DY.
+  pose proof (nonmult_U1_offset _ _ _ _ HX) as NX. pose proof (nonmult_U1_offset _ _ _ _ HY) as NY.
+  split.
+  - pose proof (add_sub_table qk r auto true xa (U1 X) xb (U1 Y) d _ _ DX DY NX NY) as T.
+    cbv zeta in T. rewrite (classify_offset _ _ _ _ HX), (classify_offset _ _ _ _ HY) in T. simpl in T.
+    rewrite rename_U1 in T. apply T; intros n [= <-]; assumption.
+  - pose proof (add_sub_table qk r auto false xa (U1 X) xb (U1 Y) d _ _ DX DY NX NY) as T.
+    cbv zeta in T. rewrite (classify_offset _ _ _ _ HX), (classify_offset _ _ _ _ HY) in T. simpl in T.
+    apply T; intros n [= <-]; assumption.
+Qed.
+(** offset +- absolute: the difference is a delta, the sum is refused; absolute - offset stays absolute *)
+Theorem offset_and_absolute r auto X Y dx ox dy d xa xb :
+  offset_unit r X dx ox → plain_unit r Y dy → is_delta_name Y = false → delta_mult r X →
+  dim_of r (U1 X) = Ok d → dim_of r (U1 Y) = Ok d →
+  (add_sub qk r auto true (OQty xa (U1 X)) (OQty xb (U1 Y))).2
+  = (y ←r convert qk r auto xb (U1 Y) (U1 X); Ok ((xa - y)%Qc, U1 ("delta_" ++ X)))
+  ∧ refused (add_sub qk r auto false (OQty xa (U1 X)) (OQty xb (U1 Y))).2
+  ∧ (add_sub qk r auto true (OQty xb (U1 Y)) (OQty xa (U1 X))).2
+    = (y ←r convert qk r auto xa (U1 X) (U1 Y); Ok ((xb - y)%Qc, U1 Y))
+  ∧ refused (add_sub qk r auto false (OQty xb (U1 Y)) (OQty xa (U1 X))).2.
+Proof.
+  intros HX HY ND MX DX DY.
+  pose proof (nonmult_U1_offset _ _ _ _ HX) as NX. pose proof (nonmult_U1_plain _ _ _ HY) as NY.
+  assert (CY : classify qk r [] (U1 Y) = KMult) by (unfold classify; rewrite has_delta_U1, ND; reflexivity).
+  repeat split.
+  - pose proof (add_sub_table qk r auto true xa (U1 X) xb (U1 Y) d _ _ DX DY NX NY) as T.
+    cbv zeta in T. rewrite (classify_offset _ _ _ _ HX), CY in T. simpl in T.
+    rewrite rename_U1 in T. apply T; [intros n [= <-]; assumption | intros n [=]].
+  - pose proof (add_sub_table qk r auto false xa (U1 X) xb (U1 Y) d _ _ DX DY NX NY) as T.
+    cbv zeta in T. rewrite (classify_offset _ _ _ _ HX), CY in T. simpl in T.
+    apply T; [intros n [= <-]; assumption | intros n [=]].
+  - pose proof (add_sub_table qk r auto true xb (U1 Y) xa (U1 X) d _ _ DY DX NY NX) as T.
+    cbv zeta in T. rewrite (classify_offset _ _ _ _ HX), CY in T. simpl in T.
+    apply T; [intros n [=] | intros n [= <-]; assumption].
+  - pose proof (add_sub_table qk r auto false xb (U1 Y) xa (U1 X) d _ _ DY DX NY NX) as T.
+    cbv zeta in T. rewrite (classify_offset _ _ _ _ HX), CY in T. simpl in T.
+    apply T; [intros n [=] | intros n [= <-]; assumption].
+Qed.
+(** offset +- compatible delta = offset, in both operand orders *)
+Theorem offset_pm_delta r auto sub X D dx ox dd d xa xb :
+  offset_unit r X dx ox → plain_unit r D dd → is_delta_name D = true → delta_mult r X →
+  has_compatible_delta qk r (U1 D) X = true →
+  dim_of r (U1 X) = Ok d → dim_of r (U1 D) = Ok d →
+  (add_sub qk r auto sub (OQty xa (U1 X)) (OQty xb (U1 D))).2
+  = (y ←r convert qk r auto xb (U1 D) (U1 ("delta_" ++ X)); Ok (aop2 sub xa y, U1 X))
+  ∧ (add_sub qk r auto sub (OQty xb (U1 D)) (OQty xa (U1 X))).2
+  = (y ←r convert qk r auto xb (U1 D) (U1 ("delta_" ++ X)); Ok (aop2 sub y xa, U1 X)).
+Proof.
+  intros HX HD ND MX C DX DD.
+  pose proof (nonmult_U1_offset _ _ _ _ HX) as NX. pose proof (nonmult_U1_plain _ _ _ HD) as NY.
+  assert (CY : classify qk r [] (U1 D) = KDelta) by (unfold classify; rewrite has_delta_U1, ND; reflexivity).
+  split.
+  - pose proof (add_sub_table qk r auto sub xa (U1 X) xb (U1 D) d _ _ DX DD NX NY) as T.
+    cbv zeta in T. rewrite (classify_offset _ _ _ _ HX), CY in T. simpl in T. rewrite C in T. simpl in T.
+    rewrite rename_U1 in T. apply T; [intros n [= <-]; assumption | intros n [=]].
+  - pose proof (add_sub_table qk r auto sub xb (U1 D) xa (U1 X) d _ _ DD DX NY NX) as T.
+    cbv zeta in T. rewrite (classify_offset _ _ _ _ HX), CY in T. simpl in T. rewrite C in T. simpl in T.
+    rewrite rename_U1 in T. apply T; [intros n [=] | intros n [= <-]; assumption].
+Qed.
+End Trows.
+
+(** * Decidable side conditions *)
+Definition offset_unitb (r : reg) (X : string) : bool :=
+  match r_units r !! X with
+  | Some d =>
+      match u_conv d with
+      | COffset o => negb (qz o) && negb (qz (u_scale d)) && wfb (u_ref d) && negb (has_delta (u_ref d))
+                     && negb (is_delta_name X)
+      | _ => false
+      end
+  | None => false
+  end.
+Lemma offset_unitb_spec r X : offset_unitb r X = true → ∃ d o, offset_unit r X d o.
+Proof.
+  unfold offset_unitb. destruct (r_units r !! X) as [d|] eqn:L; [|discriminate].
+  destruct (u_conv d) as [|o|] eqn:C; try discriminate. intros H.
+  repeat (apply andb_true_iff in H as [H ?]).
+  exists d, o. split; try assumption.
+  - apply qz_false. apply negb_true_iff. assumption.
+  - apply qz_false. apply negb_true_iff. assumption.
+  - apply wfb_spec. assumption.
+  - apply negb_true_iff. assumption.
+  - apply negb_true_iff. assumption.
+Qed.
+Definition plain_unitb (r : reg) (X : string) : bool :=
+  match r_units r !! X with Some d => u_multiplicative d | None => false end.
+Lemma plain_unitb_spec r X : plain_unitb r X = true → ∃ d, plain_unit r X d.
+Proof. unfold plain_unitb. destruct (r_units r !! X) as [d|] eqn:L; [|discriminate]. intros H. exists d. split; [exact L | exact H]. Qed.
+(** every offset unit of a registry has its automatic delta_ unit: same scale, same reference,
+    ScaleConverter *)
+Definition deltas_okb (r : reg) : bool :=
+  forallb (λ kv : string * udef,
+    let d := kv.2 in
+    match u_conv d with
+    | COffset o =>
+        if qz o then true else
+        match r_units r !! ("delta_" ++ u_name d) with
+        | Some dd => bool_decide (u_scale dd = u_scale d) && uc_eqb (u_ref dd) (u_ref d)
+                     && match u_conv dd with CScale => true | _ => false end
+        | None => false
+        end
+    | _ => true
+    end) (map_to_list (r_units r)).
+
+Definition degC := "degree_Celsius". Definition degF := "degree_Fahrenheit". Definition kel := "kelvin".
+Definition ddegC := "delta_degree_Celsius". Definition ddegF := "delta_degree_Fahrenheit".
+Definition q_is (x : res quantity) (m : Qc) (u : uc) : bool :=
+  match x with Ok (y, v) => bool_decide (y = m) && uc_eqb v u | Err _ => false end.
+Definition n_is (x : res Qc) (m : Qc) : bool := match x with Ok y => bool_decide (y = m) | Err _ => false end.
+Definition same_err (a b : err) : bool :=
+  match a, b with EDim, EDim | EOffset, EOffset | EZeroDiv, EZeroDiv | EValue, EValue => true | _, _ => false end.
+Definition err_is {A} (x : res A) (e : err) : bool := match x with Err e' => same_err e' e | Ok _ => false end.
+
+Example ex_units :
+  offset_unitb default_reg degC && offset_unitb default_reg degF && plain_unitb default_reg kel
+  && plain_unitb default_reg ddegC && deltas_okb default_reg
+  && negb (is_nm default_reg ("delta_" ++ degC)) = true.
+Proof. vm_compute. reflexivity. Qed.
+
+Example ex_conv :
+  n_is (convert as_found default_reg false (mkq 10 1) (U1 degC) (U1 degF)) (mkq 50 1)
+  && n_is (convert as_found default_reg false (mkq 10 1) (U1 degC) (U1 kel)) (mkq 5663 20)
+  && n_is (convert as_found default_reg false (mkq 10 1) (U1 ddegC) (U1 ddegF)) (mkq 18 1)
+  && n_is (iconvert as_found default_reg false (mkq 50 1) (U1 degF) (U1 degC)) (mkq 10 1)
+  && err_is (convert as_found default_reg false (mkq 10 1) (U1 degC) (U1 ddegC)) EDim = true.
+Proof. vm_compute. reflexivity. Qed.
+
+Example ex_table :
+  q_is (add_sub as_found default_reg false true (OQty (mkq 10 1) (U1 degC)) (OQty (mkq 5 1) (U1 degC))).2 (mkq 5 1) (U1 ddegC)
+  && q_is (add_sub as_found default_reg false false (OQty (mkq 10 1) (U1 degC)) (OQty (mkq 5 1) (U1 ddegC))).2 (mkq 15 1) (U1 degC)
+  && err_is (add_sub as_found default_reg false false (OQty (mkq 10 1) (U1 degC)) (OQty (mkq 5 1) (U1 degC))).2 EOffset
+  && err_is (add_sub as_found default_reg false false (OQty (mkq 10 1) (U1 degC)) (OQty (mkq 5 1) (U1 kel))).2 EOffset
+  && err_is (mul_div as_found default_reg false false (OQty (mkq 10 1) (U1 degC)) (ONum (mkq 2 1))).2 EOffset
+  && q_is (mul_div as_found default_reg true false (OQty (mkq 10 1) (U1 degC)) (ONum (mkq 2 1))).2 (mkq 20 1) (U1 degC)
+  && q_is (mul_div as_found default_reg true false (OQty (mkq 10 1) (U1 degC)) (OQty (mkq 2 1) (U1 "meter"))).2
+          (mkq 5663 10) (mkuc [(kel, mkq 1 1); ("meter", mkq 1 1)])
+  && err_is (q_pow as_found default_reg false (mkq 10 1, U1 degC) 2).2 EOffset
+  && q_is (q_pow as_found default_reg true (mkq 10 1, U1 degC) (-1)).2 (mkq 20 5663) (mkuc [(kel, mkq (-1) 1)]) = true.
+Proof. vm_compute. reflexivity. Qed.
+
+(** * The three findings: witnesses for the behaviour as found, and the repaired behaviour *)
+Definition degW_def : rawdef :=
+  RUnit ["degW"] [TNum "3"; TOp "/"; TNum "2"; TOp "*"; TName "degree_Rankine"; TEnd] [("offset", [TNum "10"; TEnd])].
+Definition reg_W : reg := match load (app default_raw [degW_def]) with Ok r => r | Err _ => empty_reg end.
+Example ex_F90 :
+  offset_unitb reg_W degC && plain_unitb reg_W "delta_degW"
+  && match dim_of reg_W (U1 degC), dim_of reg_W (U1 "delta_degW") with Ok a, Ok b => uc_eqb a b | _, _ => false end
+  && err_is (add_sub as_found reg_W false false (OQty (mkq 1 1) (U1 degC)) (OQty (mkq 6 1) (U1 "delta_degW"))).2 EOffset
+  && err_is (add_sub as_found reg_W false true (OQty (mkq 1 1) (U1 degC)) (OQty (mkq 6 1) (U1 "delta_degW"))).2 EDim
+  && q_is (add_sub repaired reg_W false false (OQty (mkq 1 1) (U1 degC)) (OQty (mkq 6 1) (U1 "delta_degW"))).2 (mkq 6 1) (U1 degC) = true.
+Proof. vm_compute. reflexivity. Qed.
+Definition degC_m := mkuc [(degC, mkq 1 1); ("meter", mkq 1 1)].
+Definition degF_in := mkuc [(degF, mkq 1 1); ("inch", mkq 1 1)].
+Definition degF_m := mkuc [(degF, mkq 1 1); ("meter", mkq 1 1)].
+Example ex_F91 :
+  n_is (convert as_found default_reg true (mkq 10 1) degC_m degF_in) (mkq 50 1)
+  && n_is (convert as_found default_reg true (mkq 10 1) degC_m degF_m) (mkq 50 1)
+  && n_is (convert repaired default_reg true (mkq 10 1) degC_m degF_in) (mkq 248997191 12700)
+  && n_is (convert repaired default_reg true (mkq 10 1) degC_m degF_m) (mkq 50 1)
+  && err_is (convert as_found default_reg false (mkq 10 1) degC_m degF_in) EDim = true.
+Proof. vm_compute. reflexivity. Qed.
+Definition dBm := "decibelmilliwatt".
+Example ex_F92 :
+  q_is (add_sub as_found default_reg false true (OQty (mkq 10 1) (U1 dBm)) (OQty (mkq 4 1) (U1 dBm))).2 (mkq 6 1) (U1 ("delta_" ++ dBm))
+  && bool_decide (r_units default_reg !! ("delta_" ++ dBm) = None)
+  && err_is (add_sub repaired default_reg false true (OQty (mkq 10 1) (U1 dBm)) (OQty (mkq 4 1) (U1 dBm))).2 EOffset
+  && err_is (add_sub as_found default_reg false false (OQty (mkq 10 1) (U1 dBm)) (OQty (mkq 4 1) (U1 dBm))).2 EOffset = true.
+Proof. vm_compute. reflexivity. Qed.
+Example ex_hyps :
+  (∃ d o, offset_unit default_reg degC d o) ∧ (∃ d o, offset_unit default_reg degF d o)
+  ∧ (∃ d, plain_unit default_reg kel d) ∧ delta_mult default_reg degC.
+Proof.
+  split; [|split; [|split]];
+    [apply offset_unitb_spec | apply offset_unitb_spec | apply plain_unitb_spec | unfold delta_mult];
+    vm_compute; reflexivity.
+Qed.
